@@ -281,7 +281,16 @@ func run(c Case, r *pbt.R) {
 		// ---- completeness side
 		if vd.mustFail != "" {
 			if okC || okS {
-				r.Failf("C11|completed-without-common-value|"+vd.mustFail, "model: %s, yet client ok=%v server ok=%v", vd.mustFail, okC, okS)
+				sig := "C11|completed-without-common-value|" + vd.mustFail
+				if vd.mustFail == "no-common-suite" && len(c.S.CertsBefore) > 0 {
+					sig += "|certificate-selected-by-name" // suites fit the first certificate, not the one served
+				}
+				if (vd.mustFail == "alpn-no-common-protocol" || vd.mustFail == "srtp-no-common-profile") && len(cp.versions) == 1 && cp.versions[0] == 13 {
+					sig += "|dtls13"
+				} else if (vd.mustFail == "alpn-no-common-protocol" || vd.mustFail == "srtp-no-common-profile") && len(sp.versions) == 1 && sp.versions[0] == 13 {
+					sig += "|dtls13"
+				}
+				r.Failf(sig, "model: %s, yet client ok=%v server ok=%v", vd.mustFail, okC, okS)
 
 				return
 			}
@@ -388,7 +397,11 @@ func run(c Case, r *pbt.R) {
 			return
 		}
 		if ver == 12 && !usable12(suite, sp) {
-			r.Failf("C11|suite-does-not-fit-server-key", "negotiated %04x with server credential cert=%q (certificates in front of it: %v, requested name %q) psk=%v", suite, c.S.Cert, c.S.CertsBefore, c.C.ServerName, sp.hasPSK)
+			sig := "C11|suite-does-not-fit-server-key"
+			if len(c.S.CertsBefore) > 0 {
+				sig += "|certificate-selected-by-name"
+			}
+			r.Failf(sig, "negotiated %04x with server credential cert=%q (certificates in front of it: %v, requested name %q) psk=%v", suite, c.S.Cert, c.S.CertsBefore, c.C.ServerName, sp.hasPSK)
 
 			return
 		}
